@@ -117,20 +117,20 @@ PROPS = {
     "C12": dict(
         theorems=["leaf", "required_provided", "leafTable_complete"],
         gen=g("C12"),
-        cfgs_quick=["std-release", "nosimd-release"],
+        cfgs_quick=["std-release", "nosimd-release", "nosimd-debug", "std-debug"],
         cfgs_thorough=ALL4,
     ),
     "C13": dict(
         theorems=["lanes_roundtrip", "extract_insert", "transpose4_is_transpose", "to_scalars_order",
                   "bytes_le_roundtrip", "bytes_be_roundtrip", "storage_views"],
         gen=g("C13"),
-        cfgs_quick=["std-release", "nosimd-release"],
+        cfgs_quick=["std-release", "nosimd-release", "nosimd-debug", "std-debug"],
         cfgs_thorough=ALL4,
     ),
     "C03": dict(
         theorems=["backend_eq_ref", "dispatch_total", "dispatch_sound"],
         gen=g("C03"),
-        cfgs_quick=["std-release", "nosimd-release"],
+        cfgs_quick=["std-release", "nosimd-release", "nosimd-debug"],
         cfgs_thorough=ALL4,
     ),
     "C06": dict(
